@@ -773,6 +773,8 @@ Each: real tridas -> listing -> real trias -> UF2 -> independent reader. non-tri
 			Some(bin) =>
 			{
 				let reply = cx.model.ask(&model_request(&bin));
+				let codec = cx.model.ask(&format!("tridas bin {}", hex(&bin)));
+				cx.report.compare("model.tridas.codec", &hex(&bin), &codec, &reply);
 				check_one(cx, &bin, &reply, 0);
 			},
 			None => cx.report.oracle_fail(input, "unrecognised replay input"),
@@ -845,8 +847,12 @@ Each: real tridas -> listing -> real trias -> UF2 -> independent reader. non-tri
 	{
 		let lines: Vec<String> = chunk.iter().map(|b| model_request(b)).collect();
 		let replies = cx.model.ask_many(&lines);
-		for (b, r) in chunk.iter().zip(replies.iter())
+		// the same traversal with the decoder MODEL (Codec.decode) in place of the decode table of the real decoder
+		let lines2: Vec<String> = chunk.iter().map(|b| format!("tridas bin {}", hex(b))).collect();
+		let replies2 = cx.model.ask_many(&lines2);
+		for ((b, r), r2) in chunk.iter().zip(replies.iter()).zip(replies2.iter())
 		{
+			cx.report.compare("model.tridas.codec", &hex(b), r2, r);
 			check_one(cx, b, r, serial);
 			serial += 1;
 		}
